@@ -36,6 +36,17 @@ class DeFactoCookiePolicy(DefaultCookiePolicy):
         '''Return whether the request host is an address, not a name.'''
         return bool(http.cookiejar.IPV4_RE.search(host)) or ':' in host
 
+    @classmethod
+    def _domain_matches(cls, host, domain):
+        '''Return whether the request host is in the cookie's domain.
+
+        The standard library compares with the "effective" host name, to
+        which ``.local`` is appended if the name has no dot: a cookie with
+        ``Domain=.local`` would belong to every such host.
+        '''
+        domain = domain.lstrip('.').lower()
+        return host == domain or host.endswith('.' + domain)
+
     def set_ok(self, cookie, request):
         if not DefaultCookiePolicy.set_ok(self, cookie, request):
             return False
@@ -46,6 +57,10 @@ class DeFactoCookiePolicy(DefaultCookiePolicy):
                 cookie.domain.lstrip('.') != host:
             # An address has no domain hierarchy: ".0.1" is not a
             # parent domain of 127.0.0.1 (RFC 6265 section 5.1.3).
+            return False
+
+        if cookie.domain_specified and \
+                not self._domain_matches(host, cookie.domain):
             return False
 
         try:
@@ -77,6 +92,10 @@ class DeFactoCookiePolicy(DefaultCookiePolicy):
 
         if self._is_ip_address(host) and cookie.domain.lstrip('.') != host:
             # Also for cookies that were loaded from a file.
+            return False
+
+        if cookie.domain_specified and \
+                not self._domain_matches(host, cookie.domain):
             return False
 
         return DefaultCookiePolicy.return_ok(self, cookie, request)
